@@ -126,6 +126,7 @@ func checkC03(ctx *Ctx, r *Report) {
 	c03FirstWinsReached(ctx, r)
 	c07HuntedRules(ctx, r)
 	c03TemplatesReachCollector(ctx, r)
+	c03AnchorsUnique(ctx, r)
 }
 
 func (st *c03State) siteName(s mapSite) string {
@@ -1461,4 +1462,68 @@ func (st *c03State) counterOnlyGuardsErrors(field *types.Var) bool {
 		}
 	}
 	return ok && uses > 0
+}
+
+// c03AnchorsUnique — fourth hunt: santhosh-tekuri/jsonschema resolves a plain-name reference (`#thing`) by ranging over
+// a map of sub-resources and taking the first schema that declares the anchor; two schemas declaring the same anchor
+// (which the specification leaves undefined) make the generated types change from run to run. The choice is made
+// inside the library, before cog sees anything: the JSON Schema front-end has to refuse such a document before it
+// hands it to the compiler — GenerateAST calls, under an error exit and before compiler.Compile, a function of the
+// package that looks for the anchor keywords.
+func c03AnchorsUnique(ctx *Ctx, r *Report) {
+	fn := ctx.LookupFunc("internal/jsonschema", "GenerateAST")
+	fd, p := ctx.DeclOf(fn)
+	if fd == nil {
+		r.Undecided("anchor lost: jsonschema.GenerateAST")
+		return
+	}
+	info := p.TypesInfo
+	var compile token.Pos
+	ast.Inspect(fd.Body, func(m ast.Node) bool {
+		if c, ok := m.(*ast.CallExpr); ok {
+			if f := callee(info, c); f != nil && f.Name() == "Compile" && f.Pkg() != nil && strings.Contains(f.Pkg().Path(), "santhosh-tekuri/jsonschema") {
+				if !compile.IsValid() {
+					compile = c.Pos()
+				}
+			}
+		}
+		return true
+	})
+	if !compile.IsValid() {
+		r.Undecided("anchor changed: jsonschema.GenerateAST no longer compiles the document with santhosh-tekuri/jsonschema")
+		return
+	}
+	looksForAnchors := func(f *types.Func) bool {
+		hfd, _ := ctx.DeclOf(f)
+		if hfd == nil || hfd.Body == nil {
+			return false
+		}
+		keywords := map[string]bool{}
+		ast.Inspect(hfd.Body, func(k ast.Node) bool {
+			if bl, ok := k.(*ast.BasicLit); ok && bl.Kind == token.STRING {
+				keywords[strings.Trim(bl.Value, "\"`")] = true
+			}
+			return true
+		})
+		return keywords["$anchor"] && keywords["$id"]
+	}
+	checked := false
+	ast.Inspect(fd.Body, func(m ast.Node) bool {
+		is, ok := m.(*ast.IfStmt)
+		if !ok || is.Pos() > compile || !endsInExit(is.Body) {
+			return true
+		}
+		as, ok := is.Init.(*ast.AssignStmt)
+		if !ok || len(as.Rhs) != 1 {
+			return true
+		}
+		if c, ok := ast.Unparen(as.Rhs[0]).(*ast.CallExpr); ok {
+			if f := callee(info, c); f != nil && f.Pkg() == p.Types && looksForAnchors(f) {
+				checked = true
+			}
+		}
+		return true
+	})
+	r.Check(checked, "order/anchors-unique", "jsonschema.GenerateAST hands the document to the parser", fd.Pos(), "after refusing a document in which an anchor is declared twice",
+		"GenerateAST compiles the document as it is: `\"thing\": {\"$ref\": \"#thing\"}` with `$defs/Apple` and `$defs/Banana` both declaring `\"$anchor\": \"thing\"` is resolved by the library in the order of a Go map — over 120 identical runs, 80 generated Apple and 40 Banana: types_gen.go has two different contents")
 }
